@@ -325,7 +325,8 @@ Proof.
     intros st cl i r st' H Hr HI El Em. simpl in H.
     destruct (Nat.ltb (s_maxdepth st) (List.length (s_stack st))).
     { inv_pair. repeat split; try apply HI; try apply frame_refl. now left. }
-    set (st1 := upd_log (upd_stack st (i :: s_stack st)) (i :: s_log st)) in *.
+    set (st1 := upd_reent (upd_log (upd_stack st (i :: s_stack st)) (i :: s_log st))
+                         (s_reent st || mem_item i (s_stack st))) in *.
     assert (I1 : Inv st1) by exact HI.
     destruct (exec_body f st1 (snd i) [] (cl_body cl) (cl_body cl) 0) as [[rb st2] ln] eqn:Eb.
     destruct rb as [v|k|].
